@@ -456,7 +456,7 @@ def check(fx, rep, tier):
                         f"`{ob['def']}` matches the error kind(s) {kinds} and answers Ok(()) without recording the error: in strict mode the run succeeds although that error was raised",
                         sample={"rule": "R17.3", "opcode": ob["def"], "kinds": kinds},
                     )
-    rep.floor("R17.3", n_sw, 2, "arms of opcode implementations that match execution-error kinds")
+    rep.floor("R17.3", n_sw, 1, "arms of opcode implementations that match execution-error kinds")
     # what has been recorded stays recorded: nothing in the error container removes payloads
     ERRS = "error::container::Errors"
     DROPPERS = {"dedup", "dedup_by", "dedup_by_key", "retain", "retain_mut", "truncate", "pop", "remove", "swap_remove", "clear", "drain", "split_off", "take"}
